@@ -154,6 +154,7 @@ RuleVal(r, args, inst, oname, ci, couts, fc) ==
       [] r.k = "fplink" -> VFile(inst, oname \o ".plnk", fc)       \* a relative link to the first file among the arguments
       [] r.k = "foutside" -> VFile(inst, oname \o ".outside", fc)  \* a file written outside the pipestance directory
       [] r.k = "fdlink" -> VFile(inst, oname \o ".rdl", fc)       \* a file below a link (in the files directory) to a directory elsewhere
+      [] r.k = "fdlink2" -> VFile(inst, oname \o ".rdl2", fc)     \* the same through a second link inside the files directory
       [] r.k = "fsm" -> VObj(("label" :> VStr("x")) @@ ("m" :> VObj("k" :> VInt(1))) @@ ("f" :> VFile(inst, oname \o "_f", fc)))
       [] r.k = "dir"   -> VFile(inst, oname \o ".d", fc)      \* a directory holding two files
       [] r.k = "fstruct" -> VObj(("f" :> VFile(inst, oname \o "_f", fc)) @@ ("n" :> VInt(7)))
